@@ -62,19 +62,41 @@ class Hist:
             if rnd.random() < 0.4:
                 stmts = [obs(I(999)), let(self.fresh("w"), I(1))] + stmts
             return "stmts", stmts, None
-        if r < 0.34:
+        if r < 0.30:
+            # rejected by the compiler after it has already entered nested scopes and made definitions there:
+            # inside a block / if / loop body, a named function's body, an anonymous function
+            name = rnd.choice(self.vars) if self.vars and rnd.random() < 0.7 else self.fresh("v")
+            bad = bin_("+", ident("nosuch%d" % rnd.randint(0, 9)), I(1))
+            inner = [let(name, I(rnd.randint(50, 60))), obs(bad)]
+            shape = rnd.randrange(7)
+            if shape == 0:
+                stmts = [expr(if_(lit(vbool(True)), inner))]
+            elif shape == 1:
+                stmts = [block(inner)]
+            elif shape == 2:
+                stmts = [while_(lit(vbool(False)), inner)]
+            elif shape == 3:
+                stmts = [fndef(rnd.choice(self.fns) if self.fns and rnd.random() < 0.5 else self.fresh("g"), [self.fresh("p")], inner + [expr(I(0))])]
+            elif shape == 4:
+                stmts = [obs(call(fn(["a"], [expr(bin_("+", ident("a"), bad))]), I(1)))]
+            elif shape == 5:
+                stmts = [let(self.fresh("q"), fn([], inner + [expr(I(0))]))]
+            else:
+                stmts = [expr(if_(lit(vbool(True)), [block(inner)]))]
+            return "stmts", stmts, None
+        if r < 0.40:
             # fails at run time after a side effect
             name = self.fresh("v")
             stmts = [obs(self.e_int(1)), let(name, self.e_int(1)), expr(bin_(rnd.choice(["/", "%"]), self.e_int(1), I(0)))]
             return "stmts", stmts, ("var", name)
-        if r < 0.55:
+        if r < 0.58:
             name = rnd.choice(self.vars) if self.vars and rnd.random() < 0.4 else self.fresh("v")
             # a redefinition must not mention the name it defines (which binding that denotes is unspecified)
             self.hidden = name
             e = self.e_int()
             self.hidden = None
             return "stmts", [let(name, e), obs(ident(name))], ("var", name)
-        if r < 0.65:
+        if r < 0.66:
             name = self.fresh("f")
             p = self.fresh("p")
             body = [expr(bin_("+", ident(p), self.e_int(1)))]
@@ -82,7 +104,16 @@ class Hist:
         if r < 0.75 and self.vars:
             v = rnd.choice(self.vars)
             return "stmts", [expr(asg(ident(v), self.e_int())), obs(ident(v))], None
-        if r < 0.85:
+        if r < 0.80 and self.vars:
+            # reads from nested scopes: a block, an if body, an anonymous function called at once
+            v = rnd.choice(self.vars)
+            shape = rnd.randrange(3)
+            if shape == 0:
+                return "stmts", [expr(if_(lit(vbool(True)), [obs(ident(v))]))], None
+            if shape == 1:
+                return "stmts", [block([obs(bin_("+", ident(v), I(1)))])], None
+            return "stmts", [obs(call(fn([], [expr(ident(v))])))], None
+        if r < 0.88:
             c = self.fresh("i")
             return "stmts", [let(c, I(0)), while_(bin_("<", ident(c), I(3)), [expr(asg(ident(c), bin_("+", ident(c), I(1)))), obs(ident(c))])], None
         return "stmts", [obs(self.e_int()), obs(self.e_int(1))], None
@@ -215,8 +246,9 @@ def run(rep, tier, seed):
             sig = "repl %s: expected=%s got=%s%s" % (v["why"], v["want"], l["class"], " (after a rejected line)" if prev_rejected else "")
             rep.disagree(sig, {"session": s["text"], "line_index": v["at"], "stdout": s["out"][-600:], "stderr": s["err"][-600:]})
     rep.cov["distinct_nontrivial"] = len({s["text"] for s in sessions if len(s["lines"]) > 2})
-    rep.cov["rule"] = ("random sessions of 1-12 lines from 9 line kinds (unparsable, compiler-rejected with and without redefinition of an "
-                       "existing name, failing at run time after a side effect, let / redefinition, function definition, assignment, "
+    rep.cov["rule"] = ("random sessions of 1-12 lines from 11 line kinds (unparsable, compiler-rejected with and without redefinition of an "
+                       "existing name, compiler-rejected after definitions in a nested block / if / loop / function body / anonymous "
+                       "function, failing at run time after a side effect, reads from nested scopes, let / redefinition, function definition, assignment, "
                        "loop, observation), with blank and continued lines; distinct = distinct session texts; non-trivial = more "
                        "than one line after the OBS declaration")
     rep.cov["exhaustive"] = False
